@@ -25,4 +25,7 @@ theorem ClifFns_boundsCheck (ty : Ty) (base : Arg) (offset : BitVec 16) : insert
 theorem ClifFns_arm (helpers : Nat → Bool) (p : Bytes) (pc : Nat) (i : Insn) (h : i.opc.toNat ∈ straightOpcodes) :
     straightArmSrc i = some (armB helpers p pc i) := straightArm_eq helpers p pc i h
 
+/-- `build_function_prelude`: the entry block's operations (stack addresses, ends of the two memory areas, R1, R2, the jump) are the source's -/
+theorem ClifFns_prelude : preludeSrcOk = true ∧ preludeSrcB = preludeB := ⟨by decide, rfl⟩
+
 end Rbpf
